@@ -3224,15 +3224,18 @@ where
         let mut iter = iter.into_iter();
 
         if let Some((key, value)) = iter.next() {
-            // safety: we own `map`, so it's not concurrently accessed by
-            // anyone else at this point.
-            let guard = unsafe { Guard::unprotected() };
-
             let (lower, _) = iter.size_hint();
             let map = HashMap::with_capacity_and_hasher(lower.saturating_add(1), S::default());
 
-            map.put(key, value, false, &guard);
-            map.put_all(iter, &guard);
+            {
+                // NOTE: this must be a real guard. `put` may resize the table or treeify a
+                // bin, both of which retire nodes they keep using for a moment (the bin
+                // lock lives inside the retired head node); an unprotected guard would
+                // free them on the spot.
+                let guard = map.guard();
+                map.put(key, value, false, &guard);
+                map.put_all(iter, &guard);
+            }
             map
         } else {
             Self::default()
